@@ -2,6 +2,7 @@
 from __future__ import annotations
 
 import ast
+import os
 
 import z3
 
@@ -14,6 +15,22 @@ from .values import (ANY, BOOL, INT, PY, REAL, STR, Ty, Unsupported, V, coerce, 
 
 PURE_NODES = (ast.Constant, ast.Name, ast.Attribute, ast.Compare, ast.BoolOp, ast.UnaryOp, ast.BinOp, ast.Subscript,
               ast.IfExp, ast.Tuple, ast.Load, ast.And, ast.Or, ast.Not, ast.cmpop, ast.operator, ast.unaryop)
+
+
+def _has_lambda(e) -> bool:
+    seen, stack = set(), [e]
+    while stack:
+        x = stack.pop()
+        if x.get_id() in seen:
+            continue
+        seen.add(x.get_id())
+        if z3.is_quantifier(x):
+            if x.is_lambda():
+                return True
+            stack.append(x.body())
+        elif z3.is_app(x):
+            stack.extend(x.children())
+    return False
 
 
 class ExprMixin(ExecBase):
@@ -454,7 +471,29 @@ class ExprMixin(ExecBase):
             self.safety('IndexError', z3.And(-n <= i, i < n), 'list_index')
             # in a clause, indices are written non-negative: the plain select keeps quantified clauses instantiable (triggers)
             i2 = i if self.spec_mode else z3.If(i < 0, i + n, i)
-            return self.list_at(base, i2)
+            r = self.list_at(base, i2)
+            qf = getattr(self, 'qfacts', None)
+            if self.spec_mode and qf and self.C is not None and getattr(self.C, 'typed_elements', False):
+                # an element read under a quantifier: its class is known only through the declared element type (the same
+                # well-typedness every concrete read assumes). For a list that does not depend on a quantified variable this is
+                # assumed once for all its elements; otherwise it becomes a guard of the innermost quantifier.
+                facts = self.class_facts(r)
+                if facts:
+                    from .calls import _free_consts
+                    bound = {b.get_id() for bs in getattr(self, 'qbound', []) for b in bs}
+                    if any(c.get_id() in bound for c in _free_consts(base.term)) or _has_lambda(base.term):
+                        for f in facts:
+                            qf[-1].append(z3.Implies(z3.And(0 <= i2, i2 < n), f))
+                    else:
+                        memo = self.st.flags.setdefault('typed_lists', {})
+                        k = base.term.get_id()
+                        if not (k in memo and memo[k].eq(base.term)):
+                            memo[k] = base.term
+                            j = z3.Int(fresh_name('ti'))
+                            ej = self.list_at(base, j)
+                            body = z3.Implies(z3.And(0 <= j, j < n), z3.And(*self.class_facts(ej)))
+                            self.assume(z3.ForAll([j], body))
+            return r
         if k == 'dict':
             if (not self.spec_mode and base.loc is not None and base.loc[0] == 'field' and base.loc[1] in getattr(self.spec, 'defaultdict_fields', ())
                     and base.ty.args[1].kind == 'list'):
